@@ -1,4 +1,5 @@
 import MosdnsVerif.Refine.C17
+import MosdnsVerif.Props.C17Frame
 import MosdnsVerif.Gen.Facts
 
 /-!
